@@ -51,7 +51,8 @@ Inductive op :=
 | ODocsMatching (slot : N) (terms : list (bytes * bytes))
 | OStats (slot : N) (f : bytes)
 | OContains (slot : N) (f t : bytes)
-| OFooter (slot : N) (file : bytes).
+| OFooter (slot : N) (file : bytes)
+| OLayout (slot : N) (dvflags : list bool).
 
 Definition piterop : P iter_op :=
   let%p k := pnum in
@@ -84,6 +85,7 @@ Definition pop : P op :=
   | 16 => let%p s := pnum in let%p f := pbytes in pret (OStats s f)
   | 17 => let%p s := pnum in let%p f := pbytes in let%p t := pbytes in pret (OContains s f t)
   | 20 => let%p s := pnum in let%p b := pbytes in pret (OFooter s b)
+  | 21 => let%p s := pnum in let%p fl := plist pbool in pret (OLayout s fl)
   | _ => fun _ => None
   end.
 
@@ -123,12 +125,17 @@ Definition obs_all (A : ASeg) : list N :=
 
 (* a segment slot remembers how it was written: the chunk mode and whether a
    merge wrote it (only merges use the 1-hit encoding) *)
-Record Slot := mkSlot { sl_seg : ASeg; sl_cm : N; sl_merged : bool }.
+Record Slot := mkSlot {
+  sl_seg : ASeg; sl_cm : N; sl_merged : bool;
+  (* (field, term) pairs the merger did not 1-hit encode although one posting survives:
+     finishTerm looks at the frequency and number reported by the LAST input segment
+     whose dictionary has the term, and that segment contributed no surviving posting *)
+  sl_no1hit : list (bytes * bytes) }.
 
 Definition slot (st : list Slot) (s : N) : ASeg :=
   match nthN st (N.to_nat s) with Some x => sl_seg x | None => mkASeg [] [] [] end.
 Definition slot_full (st : list Slot) (s : N) : Slot :=
-  opt_default (mkSlot (mkASeg [] [] []) 1025 false) (nthN st (N.to_nat s)).
+  opt_default (mkSlot (mkASeg [] [] []) 1025 false []) (nthN st (N.to_nat s)).
 
 (* the stored form of a term's postings in a segment written with chunk mode cm *)
 Definition to_eposting (fields : list bytes) (p : APosting) : EPosting :=
@@ -143,6 +150,7 @@ Definition encode_term (sl : Slot) (f t : bytes) : EncPL :=
   let one_hit :=
     match ps with
     | [p] => sl_merged sl && negb (ep_hasLocs p) && (ep_doc p <=? mask31) && (ep_freq p =? 1)
+             && negb (existsb (fun ft => beq (fst ft) f && beq (snd ft) t) (sl_no1hit sl))
     | _ => false
     end in
   match ps, one_hit with
@@ -216,12 +224,84 @@ Definition fst_entries (sl : Slot) (f : bytes) : list (bytes * FstVal) :=
 Definition run_dict_l1 (sl : Slot) (f : bytes) (lo hi pre : option bytes) : list N :=
   w_list w_dictentry (dict_iter pl_read pl_zero (fst_search (fst_entries sl f) lo hi pre)).
 
+(* ---- the logical layout of the whole file, as the pinned format defines it ---- *)
+Definition w_term_layout (sl : Slot) (f t : bytes) : list N :=
+  w_bytes t ++
+  match encode_term sl f t with
+  | E1Hit d nb => [1; d; nb]
+  | EGen docs cs fch lch =>
+      [0] ++ w_list (fun x => [x]) docs ++ [cs] ++ w_list w_bytes fch ++
+      match lch with
+      | Some l => [1] ++ w_list w_bytes l
+      | None => [0]
+      end
+  end.
+
+Definition w_dvchunk (c : DvChunk) : list N :=
+  w_list (fun h : N * N => [fst h; snd h]) (dvc_header c) ++ w_bytes (dvc_data c).
+
+Definition stored_layout (A : ASeg) : list bytes * list N :=
+  let fix go (fuel : nat) (docs : list ADoc) : list bytes * list N :=
+    match fuel with
+    | O => ([], [])
+    | S f =>
+        match docs with
+        | [] => ([], [])
+        | _ =>
+            let svs := map (svals_of (as_fields A)) (firstn (N.to_nat block_docs) docs) in
+            let '(bs, os) := go f (skipn (N.to_nat block_docs) docs) in
+            (block_of svs :: bs, block_offsets 0 svs ++ os)
+        end
+    end in
+  go (S (length (as_docs A))) (as_docs A).
+
+Definition layout (sl : Slot) (dvflags : list bool) : list N :=
+  let A := sl_seg sl in
+  let nch := N.to_nat ((o_count A - 1) / dv_chunk_docs + 1) in
+  let '(blocks, offs) := stored_layout A in
+  [o_count A; sl_cm sl] ++
+  w_list (fun fb : bytes * bool =>
+     let f := fst fb in
+     let st := o_stats A f in
+     w_bytes f ++ [fst (snd st); snd (snd st)] ++
+     w_list (w_term_layout sl f) (o_terms A f) ++
+     (if snd fb then [1] ++ w_list w_dvchunk (dv_chunks nch (dv_entries A f)) else [0]))
+   (combine (as_fields A) (dvflags ++ repeat false (length (as_fields A)))) ++
+  w_list w_bytes blocks ++ w_list (fun x => [x]) offs ++
+  [if forallb (fun fb : bytes * bool => snd fb || match dv_entries A (fst fb) with [] => true | _ => false end)
+             (combine (as_fields A) (dvflags ++ repeat false (length (as_fields A)))) then 1 else 0].
+
+(* does input (A, drops) have a surviving document with term t in field f? *)
+Definition survives_in (A : ASeg) (drops : list N) (f t : bytes) : bool :=
+  existsb (fun nd : N * ADoc => negb (memN (fst nd) drops) && mem beq t (map fst (doc_terms (snd nd) f)))
+          (number_from 0 (as_docs A)).
+
+(* the last input whose dictionary has the term decides what finishTerm sees;
+   [tl] pairs every input with its terms of the field (computed once per field) *)
+Definition last_with_term (tl : list ((ASeg * list N) * list bytes)) (t : bytes) : option (ASeg * list N) :=
+  fold_left (fun acc p => if mem beq t (snd p) then Some (fst p) else acc) tl None.
+
+Definition merge_no1hit (ins : list (ASeg * list N)) (M : ASeg) : list (bytes * bytes) :=
+  flat_map' (fun f =>
+    let tl := map (fun p => (p, o_terms (fst p) f)) ins in
+    flat_map' (fun t =>
+      (* only a term with exactly one surviving posting can be 1-hit encoded at all *)
+      match o_postings M f t with
+      | [_] =>
+          match last_with_term tl t with
+          | Some (A, dr) => if survives_in A dr f t then [] else [(f, t)]
+          | None => []
+          end
+      | _ => []
+      end) (o_terms M f)) (as_fields M).
+
 Definition step (st : list Slot) (o : op) : list Slot * list N :=
   match o with
-  | OBuild cm b => let A := abs_of_batch harness_norm b in (st ++ [mkSlot A cm false], [o_count A])
+  | OBuild cm b => let A := abs_of_batch harness_norm b in (st ++ [mkSlot A cm false []], [o_count A])
   | OMerge cm ins =>
       let '(A, nums) := merge_spec (map (fun p => (slot st (fst p), snd p)) ins) in
-      (st ++ [mkSlot A cm true], w_list (w_list (fun x => [x])) nums ++ [o_count A])
+      (st ++ [mkSlot A cm true (merge_no1hit (map (fun p => (slot st (fst p), snd p)) ins) A)],
+       w_list (w_list (fun x => [x])) nums ++ [o_count A])
   | OReload s _ => (st ++ [slot_full st s], [o_count (slot st s)])
   | OObsAll s => (st, obs_all (slot st s))
   | ODict s f lo hi pre => (st, run_dict_l1 (slot_full st s) f lo hi pre)
@@ -240,6 +320,7 @@ Definition step (st : list Slot) (o : op) : list Slot * list N :=
                           && (ft_chunkMode ft =? sl_cm (slot_full st s)) then 1 else 0]
            | _ => [4294967294; 1]
            end)
+  | OLayout s fl => (st, layout (slot_full st s) fl)
   end.
 
 Fixpoint run_ops (st : list Slot) (ops : list op) : list N :=
